@@ -19,3 +19,4 @@ INVARIANT ROrdered
 INVARIANT RResumeConsistent
 INVARIANT RPagingConsistent
 INVARIANT RConfigIndependent
+INVARIANT REventually
